@@ -489,7 +489,15 @@ func (g *c12G) scalar(depth int) *gpb.TypedValue {
 
 func (g *c12G) leaflist(depth int) *gpb.TypedValue {
 	arr := &gpb.ScalarArray{}
-	switch g.pick(7, "ll.kind") {
+	switch g.pick(8, "ll.kind") {
+	case 7:
+		// decimal64 entries: a leaf-list element's precision is not limited the way a scalar's is
+		g.tag("val:leaflist-decimals")
+		pr := c12Precisions[g.pick(len(c12Precisions), "ll.prec")]
+		n := 1 + g.pick(3, "ll.n")
+		for i := 0; i < n; i++ {
+			arr.Element = append(arr.Element, &gpb.TypedValue{Value: &gpb.TypedValue_DecimalVal{DecimalVal: &gpb.Decimal64{Digits: c12Digits[g.pick(len(c12Digits), "ll.digits")], Precision: pr}}})
+		}
 	case 0:
 		g.tag("val:leaflist-empty")
 		if g.pct(50, "ll.nilarr") {
@@ -1008,12 +1016,40 @@ func (g *c12G) adminMsg(kind string) any {
 		if g.pct(50, "ls.sp") {
 			r.SelectionPath = g.hostile("ls.sph")
 		}
-		switch g.weighted("ls.cc", 25, 10, 65) {
+		switch g.weighted("ls.cc", 22, 8, 55, 15) {
 		case 0:
 			g.tag("leafsel:no-change-context")
 		case 1:
 			r.ChangeContext = &gpb.SetRequest{}
 			g.tag("leafsel:empty-change-context")
+		case 3:
+			// everything about the query is in order except ONE value of its change context that cannot be
+			// converted: the handler's error path has to describe that value
+			g.tag("leafsel:change-context-with-a-value-that-cannot-be-converted")
+			r.Target, r.Type, r.Version, r.SelectionPath = []string{"t1", "t4"}[g.pick(2, "ls.ut")], model.M1Name, model.M1Version, "/a/b"
+			mp, _ := g.modelPath(true)
+			var v *gpb.TypedValue
+			switch g.pick(6, "ls.uv") {
+			case 0:
+				v = &gpb.TypedValue{Value: &gpb.TypedValue_DecimalVal{DecimalVal: &gpb.Decimal64{Digits: 5, Precision: []uint32{19, 63, 64, 100, 1 << 31, math.MaxUint32}[g.pick(6, "ls.up")]}}}
+			case 1:
+				v = &gpb.TypedValue{} // no arm set
+			case 2:
+				v = &gpb.TypedValue{Value: &gpb.TypedValue_LeaflistVal{LeaflistVal: &gpb.ScalarArray{Element: []*gpb.TypedValue{{Value: &gpb.TypedValue_IntVal{IntVal: 1}}, {}}}}}
+			case 3:
+				v = &gpb.TypedValue{Value: &gpb.TypedValue_LeaflistVal{LeaflistVal: &gpb.ScalarArray{Element: []*gpb.TypedValue{{Value: &gpb.TypedValue_DecimalVal{DecimalVal: &gpb.Decimal64{Digits: 1, Precision: 64}}}}}}}
+			case 4:
+				v = &gpb.TypedValue{Value: &gpb.TypedValue_FloatVal{FloatVal: float32(math.NaN())}}
+			default:
+				v = g.scalar(0)
+			}
+			up := &gpb.Update{Path: mp.Gnmi(), Val: v}
+			r.ChangeContext = &gpb.SetRequest{}
+			if g.pct(50, "ls.urep") {
+				r.ChangeContext.Replace = []*gpb.Update{up}
+			} else {
+				r.ChangeContext.Update = []*gpb.Update{up}
+			}
 		default:
 			r.ChangeContext = g.setReq()
 			g.tag("leafsel:change-context")
